@@ -82,15 +82,9 @@ class Reader:
 
         if meta_file == sglx_file:
             # if a meta-data file is provided, try to get the binary file
-            self.file_bin = (
-                sglx_file.with_suffix(".cbin")
-                if sglx_file.with_suffix(".cbin").exists()
-                else None
-            )
-            self.file_bin = (
-                sglx_file.with_suffix(".bin")
-                if sglx_file.with_suffix(".bin").exists()
-                else None
+            self.file_bin = next(
+                (f for f in (sglx_file.with_suffix(".bin"), sglx_file.with_suffix(".cbin")) if f.exists()),
+                None,
             )
         else:
             self.file_bin = sglx_file
